@@ -420,10 +420,11 @@ def _distance_facts(ctx, b, bi, t, args, facts, l1, acc_ok):
     maps = [k for k, nme in bufs.items() if True]
     for (ebi, et, rk, m) in U.receiver_events(ctx, b):
         pass
-    _last_occurrence_facts(ctx, b, bi, args, facts, bufs)
+    size_atom = ("size", B.norm_atom(args[0])) if (t.get("cn") or "").endswith(("DistMatrix::get_unchecked", "DistMatrix::set_unchecked")) else None
+    _last_occurrence_facts(ctx, b, bi, args, facts, bufs, size_atom=size_atom, l1_ok=bool(l1))
 
 
-def _last_occurrence_facts(ctx, b, site_bi, args, facts, bufs):
+def _last_occurrence_facts(ctx, b, site_bi, args, facts, bufs, size_atom=None, l1_ok=False):
     sy = ctx.sym(b)
     cfg = ctx.cfg(b)
     for a in args[1:3]:
@@ -468,6 +469,22 @@ def _last_occurrence_facts(ctx, b, site_bi, args, facts, bufs):
                     if ok and idx_atom:
                         facts.append(ge(Lin({idx_atom: 1}), Lin({B.norm_atom(a): 1}),
                                         "last-occurrence map holds only earlier index+1 values (cleared before the loop, inserted after the reads)"))
+                    elif size_atom is not None and l1_ok and inserts and not others:
+                        # weaker, history-independent bound: every value ever inserted was index+1 <= len <= size-2 at that time
+                        # (L1), and the matrix dimension never shrinks (it is only assigned under `need > size` with g(need) >= need)
+                        all_idx = True
+                        for (x, tt) in inserts:
+                            v = B.lin(sy.operand(tt["args"][2]))
+                            if not (len(v.co) == 1 and v.c == 1 and list(v.co.values())[0] == 1):
+                                all_idx = False
+                                break
+                            tmp = []
+                            B.index_facts(sy.operand(tt["args"][2]), tmp)
+                            if not tmp:
+                                all_idx = False
+                        if all_idx:
+                            facts.append(Fact(Lin({size_atom: 1, B.norm_atom(a): -1}, -2),
+                                              "map values were index+1 <= len <= size-2 when inserted (L1) and the matrix dimension never shrinks"))
         # (ii) a mutable local assigned only 0 or (inner index + 1) after the reads
         if ea[0] == "var":
             l = ea[1]
@@ -500,7 +517,26 @@ def lemma_postings(ctx, rule):
     before = len(ctx.obs)
     RT.counters(ctx, rule, need_clear=False)
     RT.only_store_add_feeds_index(ctx, rule)
-    RS.consistency_group(ctx, rule)
+    # next_ix <= index.len is preserved: both grow by one per add (above); an entry point that resets the index's record
+    # count must reset next_ix too (the converse is harmless for memory safety)
+    store = RS._store_adt(ctx)
+    if store is not None:
+        sid = store["id"]
+        eff = ctx.eff
+        idx_adt, _ = RT._index_bodies(ctx)
+        for ep in RS.entry_points(ctx, store):
+            te = eff.trans(ep.id)
+            lenw = idx_adt and (idx_adt["id"], "len") in te
+            adder = any(U.callee_is(t, "Vec::push") for _, t in ep.calls()) or any(
+                (idx_adt["id"], "dict") in eff.trans(x) and U.calls_named(ctx.facts.bodies[x], "HashMap::entry", "HashMap::insert")
+                for x in ctx.cg.reachable([ep.id]) if x in ctx.facts.bodies)
+            if lenw and not adder:
+                key = "len-reset-with-next_ix:%s" % ep.id
+                if (sid, "next_ix") in te:
+                    ctx.ok(rule, key, ep.where(), "%s resets the index's record count together with next_ix" % ep.id, kind="S")
+                else:
+                    ctx.fail(rule, key, ep.where(), "%s resets the index's record count but not Store.next_ix: the next add stores a "
+                             "position >= the counter vector's length" % ep.id, kind="S")
     # postings are written only with the record's ix
     facts = ctx.facts
     ok = True
